@@ -26,3 +26,7 @@ pub fn update_info(
 ) -> Option<IngressInfo> {
     r.update_info(id, info)
 }
+
+/// The real BMP call site `PeerStates::add_peer_config` (find_existing_peer,
+/// else register + update_info) behind a small wrapper.
+pub use crate::units::bmp_tcp_in::verif_hooks_c14::PeerTable;
